@@ -1,5 +1,6 @@
 (* GENERATED from src/munged/{timer,clock,random}.c and src/libcommon/munge_defs.h by tools/gen_facts.py - do not edit *)
-From Coq Require Import ZArith.
+From Coq Require Import ZArith List.
+Import ListNotations.
 Local Open Scope Z_scope.
 Definition long_max : Z := 9223372036854775807.
 Definition msec_per_sec : Z := 1000.
@@ -8,3 +9,8 @@ Definition nsec_per_sec : Z := 1000000000.
 Definition replay_purge_secs : Z := 60.
 Definition group_update_secs : Z := 3600.
 Definition stir_max_secs : Z := 32768.
+Definition random_bytes_wanted : Z := 1152.
+Definition random_seed_bytes : Z := 1024.
+Definition stir_init_samples : list (Z * Z) := [(132, 2000); (132, 2000); (232, 2000); (1151, 2000); (1152, 32768000); (1156, 32768000); (1156, 32768000)].
+Definition stir_run_samples : list (Z * Z) := [(1, 2000); (2, 4000); (4, 8000); (8, 16000); (16, 32000); (32, 64000); (64, 128000); (128, 256000); (256, 512000); (512, 1024000); (1024, 2048000); (2048, 4096000); (4096, 8192000); (8192, 16384000); (16384, 32768000); (32768, 32768000)].
+Definition stir_jitter_max : Z := 1023.
